@@ -226,6 +226,11 @@ pub fn run(ctx: &Ctx) -> Collector {
         spaces_v.push(sp);
     }
     spaces_v.push(spaces::s_cap_families(thorough));
+    {
+        let mut sp = spaces::s_antimask(thorough);
+        sp.cases.retain(|c| c.opts.mask.is_none());
+        spaces_v.push(sp);
+    }
     if thorough {
         spaces_v.push(spaces::s_small(&[Some(3)], true));
     }
